@@ -11,7 +11,7 @@ Verdict    : ApiTrace.tla (NoServiceWithoutCA, IdentityIsCN); for C20 the direct
 import json, os, random, subprocess, time
 from vlib import *
 
-DIAL = {"plaintext": "plaintext", "tlsnocert": "tls-nocert", "selfsignedc1": "selfsigned-c1", "othercac1": "otherca-c1", "othercasigner2": "otherca-signer-2",
+DIAL = {"plaintext": "plaintext", "tlsnocert": "tls-nocert", "selfsignedc1": "selfsigned-c1", "othercac1": "otherca-c1", "othercasigner2": "otherca-signer-2", "publiccac1": "publicca-c1", "publiccasigner2": "publicca-signer-2",
         "expiredc1": "expired-c1", "ticketothercac1": "ticket-otherca-c1", "ticketothercasigner2": "ticket-otherca-signer-2", "validc1": "valid-c1", "validc2": "valid-c2", "validnobody": "valid-nobody", "validsigner2": "valid-signer-2",
         "validc2sanc1": "valid-c2~san-c1", "validnobodysansigner2": "valid-nobody~san-signer-2", "validupperc1": "valid-C1",
         "validc2plusselfsignedc1": "valid-c2+selfsigned-c1", "validc2plusothercac1": "valid-c2+otherca-c1",
